@@ -537,3 +537,12 @@ def frontier_reset_complete(ctx):
         if any(g.pre_term[n].get(key) != ini for n in g.return_nodes()):
             ctx.viol('%s|reset-value|%s' % (WF, fl['name']), rs.at, 'after WatermarkFrontier::reset() the field `%s` is %s, not its constructed value %s'
                      % (fl['name'], sorted(vals), repr(ini)), None)
+
+
+@rule('C20', 'R5', 'a failed timed receive in Start is always followed by the blocking receive that escalates a disconnected channel (the timeout latch is set unconditionally)')
+def c20_r5(ctx):
+    """recv_timeout()'s error is turned into FlushBatch without looking at its kind (C20.R2 exception).  That is fail-stop only because
+    the error arm latches `already_timed_out = true` whatever the error was, which forces the next activation into the blocking recv()
+    whose Disconnected error panics.  A latch that is conditional on the kind of error lets a replica whose upstream died spin on
+    FlushBatch forever: nothing downstream of it ever fails or terminates."""
+    c18_r3(ctx)
